@@ -328,6 +328,80 @@ def clear : J → Storage → Except Err J
 def smart (a : AnnCfg) (field touchField : Path) : Storage :=
   [.ann a, .status ⟨field, touchField, true⟩]
 
+/-! ## Storage trees: `MultiProgressStorage` / `MultiDiffBaseStorage` may contain Multi storages
+
+The real classes recurse: `for storage in self.storages: storage.store(...)` (store, purge, touch,
+clear — the patch / essence is threaded left to right) and `for storage in self.storages: content =
+storage.fetch(...); if content is not None: return content` (fetch). `STree` mirrors that recursion;
+`Lemmas/C16_Multi.lean` proves that every operation on a tree equals the operation on the flat
+list of its leaves (`STree.flatten`), which is what the theorems are stated about. -/
+
+inductive STree where
+  | leaf (l : Leaf)
+  | multi (ts : List STree)
+
+mutual
+  def STree.flatten : STree → Storage
+    | .leaf l => [l]
+    | .multi ts => STree.flattenList ts
+  def STree.flattenList : List STree → Storage
+    | [] => []
+    | t :: ts => t.flatten ++ STree.flattenList ts
+end
+
+mutual
+  /-- thread a patch (or an essence) through the tree, left to right, depth first -/
+  def STree.run (f : Leaf → J → Except Err J) : STree → J → Except Err J
+    | .leaf l, p => f l p
+    | .multi ts, p => STree.runList f ts p
+  def STree.runList (f : Leaf → J → Except Err J) : List STree → J → Except Err J
+    | [], p => .ok p
+    | t :: ts, p =>
+      match STree.run f t p with
+      | .ok p' => STree.runList f ts p'
+      | .error e => .error e
+end
+
+mutual
+  def STree.fetch (env : Env) (body : J) (k : Str) : STree → Except Err (Option J)
+    | .leaf l => l.fetch env body k
+    | .multi ts => STree.fetchList env body k ts
+  def STree.fetchList (env : Env) (body : J) (k : Str) : List STree → Except Err (Option J)
+    | [] => .ok none
+    | t :: ts =>
+      match STree.fetch env body k t with
+      | .ok none => STree.fetchList env body k ts
+      | r => r
+end
+
+def STree.store (env : Env) (body : J) (k : Str) (r : Rec) (patch : J) (t : STree) : Except Err J :=
+  t.run (fun l p => l.store env body p k r) patch
+def STree.purge (env : Env) (body : J) (k : Str) (patch : J) (t : STree) : Except Err J :=
+  t.run (fun l p => l.purge env body p k) patch
+def STree.touch (env : Env) (body : J) (value : J) (patch : J) (t : STree) : Except Err J :=
+  t.run (fun l p => l.touch env body p value) patch
+def STree.clear (essence : J) (t : STree) : Except Err J :=
+  t.run (fun l e => l.clear e) essence
+
+/-- the same threading over a flat list of leaves -/
+def runLeaves (f : Leaf → J → Except Err J) : Storage → J → Except Err J
+  | [], p => .ok p
+  | l :: ls, p =>
+    match f l p with
+    | .ok p' => runLeaves f ls p'
+    | .error e => .error e
+
+/-- the paths of the patch a `store` of id `k` may write (kopf terms: the annotations
+    `<prefix>/<v2 name>`, `<prefix>/<v1 name>`, `<prefix>/kopf-managed`, or the status field) -/
+def Leaf.writes (env : Env) (body : J) (k : Str) : Leaf → List Path
+  | .ann c => (annNames env c.pfx c.v1 body k).map annPath ++ [annPath (markerName c.pfx)]
+  | .status sc => if sc.noWrite then [] else [sc.field ++ [String.ofList k]]
+
+/-- the paths a `fetch` of id `k` reads and a `purge` clears -/
+def Leaf.owns (env : Env) (body : J) (k : Str) : Leaf → List Path
+  | .ann c => (annNames env c.pfx c.v1 body k).map annPath
+  | .status sc => [sc.field ++ [String.ofList k]]
+
 /-! ## Diff-base storages (last-handled state) -/
 
 structure AnnDiffCfg where
@@ -375,5 +449,47 @@ def dstore (env : Env) (body : J) (essence : J) : J → DStorage → Except Err 
     match l.store env body patch essence with
     | .ok p' => dstore env body essence p' ls
     | .error e => .error e
+
+inductive DTree where
+  | leaf (l : DLeaf)
+  | multi (ts : List DTree)
+
+mutual
+  def DTree.flatten : DTree → DStorage
+    | .leaf l => [l]
+    | .multi ts => DTree.flattenList ts
+  def DTree.flattenList : List DTree → DStorage
+    | [] => []
+    | t :: ts => t.flatten ++ DTree.flattenList ts
+end
+
+mutual
+  def DTree.store (env : Env) (body : J) (essence : J) : DTree → J → Except Err J
+    | .leaf l, p => l.store env body p essence
+    | .multi ts, p => DTree.storeList env body essence ts p
+  def DTree.storeList (env : Env) (body : J) (essence : J) : List DTree → J → Except Err J
+    | [], p => .ok p
+    | t :: ts, p =>
+      match DTree.store env body essence t p with
+      | .ok p' => DTree.storeList env body essence ts p'
+      | .error e => .error e
+end
+
+mutual
+  def DTree.fetch (env : Env) (body : J) : DTree → Except Err (Option J)
+    | .leaf l => l.fetch env body
+    | .multi ts => DTree.fetchList env body ts
+  def DTree.fetchList (env : Env) (body : J) : List DTree → Except Err (Option J)
+    | [] => .ok none
+    | t :: ts =>
+      match DTree.fetch env body t with
+      | .ok none => DTree.fetchList env body ts
+      | r => r
+end
+
+/-- the paths of the patch a diff-base `store` may write -/
+def DLeaf.writes (env : Env) (body : J) : DLeaf → List Path
+  | .ann c => (annNames env c.pfx c.v1 body c.key).map annPath ++ [annPath (markerName c.pfx)]
+  | .status field => [field]
 
 end Kopf.C16
